@@ -33,6 +33,9 @@ Definition ct_tree : bytes := ct_prefix ++ v_tree.
 Definition ct_trie : bytes := ct_prefix ++ v_trie.
 
 Inductive wire_format := FTree | FTrie | FLines | FGroups.
+(* the if/else ladder of ingestParamsFromRequest: a binary Content-Type is honoured WHATEVER the format parameter says
+   (a request may carry both); "tree" (parameter or header) is tested before "trie"; the parameter alone selects lines;
+   everything else, unknown and empty formats included, is the collapsed-text parser *)
 Definition select_format (format content_type : bytes) : wire_format :=
   if beqb format v_tree || beqb content_type ct_tree then FTree
   else if beqb format v_trie || beqb content_type ct_trie then FTrie
